@@ -39,6 +39,7 @@ def check(ctx):
     names = ("temperature", "pressure", "temperature_pseudocritical", "pressure_pseudocritical")
     zd = _expect_args(ctx, "C07-a", GAS + "density_DAK:Z arguments", fd.where(), d, ZQ, names, "density uses the library's Z at its own (T, p, Tpc, ppc)")
     zb = _expect_args(ctx, "C07-a", GAS + "b_factor_DAK:Z arguments", fb.where(), b, ZQ, names, "Bg uses the library's Z at its own (T, p, Tpc, ppc)")
+    d_gas, zd_gas = d, zd
     prod = nf.mul(d, b)
     # independence is decided by differentiation (exact: the derivative must vanish identically), which is
     # insensitive to un-cancelled factors such as (T + 459.67)^-1 (T + 459.67)
@@ -161,11 +162,24 @@ def check(ctx):
             signature="combined: " + nf.show(r, 200),
         )
 
-    # ---- C07-e viscosity uses the library's density at its own arguments
+    # ---- C07-e viscosity depends on pressure only through the library's own density at the function's own arguments:
+    # with Z the library's z-factor at (T, p, Tpc, ppc) and rho = density_DAK's own expression in Z, substituting
+    # Z := (value of Z that gives density rho) makes the pressure disappear from the viscosity
     fv = P.func(GAS + "viscosity_Sutton")
-    DQ = GAS + "density_DAK"
-    mu = only(run(ctx, GAS + "viscosity_Sutton", opaque={DQ}), "viscosity_Sutton").value.nf
-    _expect_args(ctx, "C07-e", GAS + "viscosity_Sutton:density arguments", fv.where(), mu, DQ, names + ("specific_gravity",), "viscosity uses the library's density_DAK at its own (T, p, Tpc, ppc, gamma)")
+    mu = only(run(ctx, GAS + "viscosity_Sutton", opaque={ZQ}), "viscosity_Sutton").value.nf
+    zv = _expect_args(ctx, "C07-e", GAS + "viscosity_Sutton:Z arguments", fv.where(), mu, ZQ, names, "viscosity is computed from the library's Z at its own (T, p, Tpc, ppc)")
+    if zv is not None and zd_gas is not None:
+        # density_DAK: d == Kd * p * gamma / (Z * (T + 459.67))  =>  Z == Kd * p * gamma / (rho * (T + 459.67))
+        Kd = nf.div(nf.mul(nf.mul(d_gas, zd_gas), nf.add(nf.sym("temperature"), K45967)), nf.mul(nf.sym("pressure"), nf.sym("specific_gravity")))
+        rho_sym = nf.sym("@rho")
+        z_of_rho = nf.div(nf.mul(nf.mul(Kd, nf.sym("pressure")), nf.sym("specific_gravity")), nf.mul(rho_sym, nf.add(nf.sym("temperature"), K45967)))
+        zatom = _atoms_named(mu, ZQ)[0]
+        mu_rho = nf.subst(mu, lambda a: z_of_rho if a == zatom else None)
+        ctx.check(
+            nf.is_const(Kd) and nf.is_zero(nf.diff(mu_rho, "pressure")), "C07-e", GAS + "viscosity_Sutton:density", fv.where(),
+            "written in terms of the library's density rho = p M / (Z R T), the viscosity no longer depends on pressure: it uses that density (at its own arguments) and pressure in no other way",
+            signature="viscosity depends on pressure besides density", derivative=nf.show(nf.diff(mu_rho, "pressure"), 200),
+        )
     # ---- C07-f viscosity positive and increasing with pressure (sign decisions over the declared range)
     from .gasdak import isotherm_rules, viscosity_rules
 
